@@ -140,11 +140,45 @@ class Caller(BaseComponent):
             self.rig.resumed(uid, None, ev)
 
 
+class OrderedTasks:
+    """Double for ``Manager._tasks`` (a plain set of (event, generator, parent) tuples, iterated via .copy()).
+
+    The tuples hash by object address, so a real set resumes waiting coroutines in an order that differs from run
+    to run; with it the order of written packets and the verdict of a *failing* case could differ between two
+    executions of one spec.  Insertion order is one of the orders a set may produce."""
+
+    def __init__(self, items=()):
+        self._d = dict.fromkeys(items)
+
+    def add(self, g):
+        self._d[g] = None
+
+    def remove(self, g):
+        del self._d[g]
+
+    def discard(self, g):
+        self._d.pop(g, None)
+
+    def __contains__(self, g):
+        return g in self._d
+
+    def __len__(self):
+        return len(self._d)
+
+    def __iter__(self):
+        return iter(list(self._d))
+
+    def copy(self):
+        return OrderedTasks(self._d)
+
+
 class Proc:
     def __init__(self, rig, name):
         self.rig = rig
         self.name = name
         self.root = Manager()
+        if isinstance(getattr(self.root, '_tasks', None), set):
+            self.root._tasks = OrderedTasks()
         self.node = None
         self.targets = []
         self.caller = None
